@@ -1120,6 +1120,7 @@ func (ro *RedisOutput) sendCmdsBatch(replayWait usync.WaitCloser, conn client.Re
 				length += len(item.Args[i].([]byte))
 			}
 
+			prevOffset := lastOffset
 			lastOffset = item.Offset
 			if item.Cmd == "ping" { // skip ping command, keepaliveTicker handle it[multi/exec, ping issue for cluster]
 				continue
@@ -1129,7 +1130,13 @@ func (ro *RedisOutput) sendCmdsBatch(replayWait usync.WaitCloser, conn client.Re
 			if transactionMode {
 				if needFlush {
 					// flush previous data
-					err := sendFunc(transactionBatch, shouldUpdateCP, lastOffset)
+					// a barrier (select/multi) is not part of the batch being flushed, so the
+					// checkpoint of that batch must not cover it yet; exec closes the batch
+					flushOffset := lastOffset
+					if txnStatus != txnStatusCommit {
+						flushOffset = prevOffset
+					}
+					err := sendFunc(transactionBatch, shouldUpdateCP, flushOffset)
 					if err != nil {
 						return err
 					}
